@@ -60,7 +60,7 @@ def py_monitors(cfg):
     """monitors over the parts of an implementation run that are not in the Coq trace type
     (harness/pymon.py): the property's own ones and those applied to every run"""
     own = cfg.get("py_monitor") or []
-    return ([own] if isinstance(own, str) else list(own)) + ["stale_oracle"]
+    return ([own] if isinstance(own, str) else list(own)) + ["stale_oracle", "reentrant_duplicates_refused"]
 
 
 def run_slice(pid, cfg, n_cases, seed, workdir, rep, stats, profiles=None, attribute=None):
